@@ -64,6 +64,29 @@ pub fn run(rep: &mut Report, thorough: bool) {
             let (dip, dmac) = &nsd[d[1] as usize];
             eth(dmac, &macs[d[3] as usize], ET_IP6, &nd_ns(&ip6[d[2] as usize], dip, &tg[d[0] as usize], &slla(&MAC_CLI), 0))
         });
+        {
+            use crate::props::c02::{elicit, Kind};
+        // tagged frames: an 802.1Q / 802.1ad / legacy QinQ tag in front of a complete eliciting frame
+        // (the outer EtherType is not ARP / IPv4 / IPv6: nothing is answered; and a reply, if any,
+        // would have to mirror the request's EtherType)
+        {
+            let kinds4t = [Kind::Arp, Kind::Echo, Kind::Syn, Kind::Stun];
+            let kinds6t = [Kind::Ns, Kind::Echo, Kind::Syn, Kind::Stun];
+            let tpids: [u16; 4] = [0x8100, 0x88a8, 0x9100, 0x8847];
+            let tcis: [u16; 4] = [0x0000, 0x0005, 0x0fff, 0xe001];
+            sweep_frames(rep, &cfg, &format!("tagged-frames-{}", tag), "4 tag protocol ids x 4 tag values x 4 eliciting kinds x {v4,v6} x {single tag, double tag}", 4 * 4 * 4 * 2 * 2, |i| {
+                let d = unrank(i, &[4, 4, 4, 2, 2]);
+                let inner = if d[3] == 1 { elicit(kinds6t[d[2] as usize], &MAC_SRV, &cli6(), &srv6()) } else { elicit(kinds4t[d[2] as usize], &MAC_SRV, &cli4(), &srv4()) };
+                let mut fr = inner[..12].to_vec();
+                for _ in 0..=d[4] {
+                    fr.extend_from_slice(&tpids[d[0] as usize].to_be_bytes());
+                    fr.extend_from_slice(&tcis[d[1] as usize].to_be_bytes());
+                }
+                fr.extend_from_slice(&inner[12..]);
+                fr
+            });
+        }
+        }
         // depth-2 histories: nothing learned from one frame (ARP sender, ND option, an earlier
         // frame's MAC) may redirect the reply to a later frame
         crate::props::pairs::pair_histories(rep, &cfg, &format!("pair-histories-{}", tag), &crate::props::pairs::l2l4_frames());
